@@ -4,10 +4,10 @@ from harness import gen_text as G
 
 class C18(Prop):
     id = 'C18'
-    theorems = ['C18.step_spec', 'C18.length_preserved', 'C18.plain_text_preserved',
+    theorems = ['C17.hist_indent', 'C17.toListFlat_breakFree', 'C18.step_spec', 'C18.length_preserved', 'C18.plain_text_preserved',
                 'C18.no_trailing_ws_introduced', 'C18.bullet_width', 'C18.header_untouched',
                 'C18.repeated_is_composition', 'C18.to_str_agrees']
-    proof_modules = ['DznProofs.C18']
+    proof_modules = ['DznProofs.C18', 'DznProofs.C17Hist']
     level_rule = ('line sequences (break-free strings incl. blank / whitespace-only / leading and '
                   'trailing whitespace) x indenter configurations (spaces 0-9 or tab x none/all/'
                   'first x glyphs of length 0-6) x 1-3 repeated indents through Indentizer.to_list, '
@@ -42,6 +42,7 @@ class C18(Prop):
         yield 'to_list', a
         yield 'to_str', b
         yield 'tb.indent', c
+        yield 'tb.hist', [G.gen_hist(rng) for _ in range(n // 2)]
 
     def impl(self, case):
         return G.run_text_op(case)
